@@ -177,6 +177,73 @@ def broken_before_call():
     except TypeError:
         res = "TypeError"
     out["strengthening_override"] = [res, []]
+    # ONE enabled invariant decorator object applied to a class and to its subclass
+    ran = []
+    try:
+        def small(self):
+            return len(self.items) < 3
+
+        inv = icontract.invariant(small, enabled=True)
+
+        class P:
+            def __init__(self):
+                self.items = [1]
+
+            def m(self):
+                ran.append("m")
+                return 1
+
+        P = inv(P)
+
+        class Q(P):
+            def n(self):
+                ran.append("n")
+                return 2
+
+        Q = inv(Q)
+        o = Q()
+        o.items.extend([2, 3, 4])
+        try:
+            o.n()
+            res = "returned"
+        except icontract.ViolationError:
+            res = "violation"
+    except BaseException as e:  # noqa: B902
+        res = type(e).__name__
+    out["shared_invariant_object"] = [res, list(ran)]
+    # the text of a violation of an explicitly enabled contract whose condition is a documented named function
+    texts = []
+    try:
+        def x_is_positive(x):
+            """Accept only the strictly positive numbers."""
+            return x > 0
+
+        @icontract.require(x_is_positive, enabled=True)
+        @icontract.ensure(x_is_positive, enabled=True)
+        def f(x):
+            return x
+
+        try:
+            f(-1)
+            texts.append("returned")
+        except icontract.ViolationError as e:
+            texts.append(str(e).replace(__file__, "<file>"))
+
+        class Err(Exception):
+            pass
+
+        @icontract.require(x_is_positive, enabled=True, error=Err)
+        def g(x):
+            return x
+
+        try:
+            g(-1)
+            texts.append("returned")
+        except Err as e:
+            texts.append(str(e).replace(__file__, "<file>"))
+    except BaseException as e:  # noqa: B902
+        texts.append(type(e).__name__)
+    out["message_text"] = texts
     return out
 
 
